@@ -284,7 +284,7 @@ func (e *Engine) identCase(p *sim.Plan, st *sim.Step, res *sim.RunResult, keep b
 	outs, pullErr := cw.victimPull("hub1")
 	postRefs, _ := localState(cw.victim.Raw)
 	postChain := identChainOf(cw.victim.Raw, refName)
-	panics := verifrt.TakePanicsQuiesced()
+	panics := verifrt.TakePanicsQuiesced(cw.goBase)
 	for _, pr := range panics {
 		add("panic", "panic in %s: %s", pr.Site, pr.Value)
 	}
